@@ -326,7 +326,8 @@ def r19_5(run):
                     good = all(x[2] and x[2][0][0] == "call" and x[2][0][1] == ("f", ls.qualname) and x[2][0][2][0] == ("n", "net")
                                and x[2][0][2][2] == C("pipe") for x in rs)
                     base_roots = roots(m["pp"])
-                    good = good and all(any(tkey(x) == rk for x in rs) or rk.startswith("('dict'") or rk.startswith("('new'") for rk in base_roots)
+                    good = good and all(any(tkey(x) == rk for x in rs) or rk.startswith("('dict'") or rk.startswith("('new'")
+                                        or rk.startswith("('comp', 'DictComp'") for rk in base_roots)
                     ok = ok and good
                     n_std += 1 if rs else 0      # a container filled per element (list arm) does not count as the loaded parameters
                     loaded = m["pp"]
